@@ -149,7 +149,7 @@ def task_prop(spec):
     return out
 
 
-KNOWN_OPS = {"and": "KF-C03-and-or-value-semantics", "or": "KF-C03-and-or-value-semantics", "**": "KF-C03-pow-complex"}
+KNOWN_OPS = {}  # and/or/** were fixed in the repository (see known_findings.json 'fixed'); nothing is suppressed
 
 
 def run(tier: str) -> int:
